@@ -84,6 +84,18 @@ void updateBaseUnitCount(const ModelPtr &model,
                          double uExp, double logMult, int direction);
 
 /**
+ * @overload
+ *
+ * @param path The names of the units currently being expanded, used to stop at units that reference each other in a cycle.
+ */
+void updateBaseUnitCount(const ModelPtr &model,
+                         std::map<std::string, double> &unitMap,
+                         double &multiplier,
+                         const std::string &uName,
+                         double uExp, double logMult, int direction,
+                         NameList &path);
+
+/**
  * @brief Validate the provided @p name is a valid CellML identifier.
  *
  * Checks if the provided @p name is a valid CellML identifier according
@@ -2578,6 +2590,24 @@ void updateBaseUnitCount(const ModelPtr &model,
                          double uExp, double logMult,
                          int direction)
 {
+    NameList path;
+    updateBaseUnitCount(model, unitMap, multiplier, uName, uExp, logMult, direction, path);
+}
+
+void updateBaseUnitCount(const ModelPtr &model,
+                         std::map<std::string, double> &unitMap,
+                         double &multiplier,
+                         const std::string &uName,
+                         double uExp, double logMult,
+                         int direction,
+                         NameList &path)
+{
+    // Cyclic units are reported elsewhere; here they must simply not be expanded forever.
+    if (std::find(path.begin(), path.end(), uName) != path.end()) {
+        return;
+    }
+    path.push_back(uName);
+
     if (model->hasUnits(uName)) {
         UnitsPtr u = model->units(uName);
         if (u->isBaseUnit()) {
@@ -2597,7 +2627,7 @@ void updateBaseUnitCount(const ModelPtr &model,
                 u->unitAttributes(i, ref, pre, exp, expMult, id);
                 mult = std::log10(expMult);
                 if (!isStandardUnitName(ref)) {
-                    updateBaseUnitCount(model, unitMap, multiplier, ref, exp * uExp, logMult + mult * uExp + convertPrefixToInt(pre) * uExp, direction);
+                    updateBaseUnitCount(model, unitMap, multiplier, ref, exp * uExp, logMult + mult * uExp + convertPrefixToInt(pre) * uExp, direction, path);
                 } else {
                     for (const auto &iter : standardUnitsList.at(ref)) {
                         unitMap.at(iter.first) += direction * (iter.second * exp * uExp);
@@ -2612,6 +2642,8 @@ void updateBaseUnitCount(const ModelPtr &model,
         }
         multiplier += direction * (logMult + standardMultiplierList.at(uName));
     }
+
+    path.pop_back();
 }
 
 void Validator::ValidatorImpl::checkUniqueResetOrders(const ModelPtr &model)
